@@ -62,8 +62,8 @@ def LabelsBs (d : Dfa) : Prop := ∀ e ∈ d.edges, PlainBs [e.label]
 
 theorem labelsBs_plain (d : Dfa) (h : LabelsBs d) : d.PlainLabels := by
   intro e he
-  obtain ⟨s, hne, _, _, hs⟩ := h e he _ List.mem_cons_self
-  exact ⟨s, hne, hs⟩
+  obtain ⟨as, hne, _, hs⟩ := h e he _ List.mem_cons_self
+  exact ⟨untok as, untok_ne_nil as hne, hs⟩
 
 theorem initRow_wf (cap : Bool) (N : Nat) (states : List Nat) (i : Nat) (es : List Edge) (hes : ∀ e ∈ es, PlainBs [e.label]) :
     ∀ (a : Mat), a.Sq N → (∀ i j, OWF (a.get i j) ∧ OSolid (a.get i j)) →
